@@ -46,4 +46,15 @@ def lastFor (key : Nat) : List (Nat × α) → Option α
     | some w => some w
     | none => if k = key then some v else none
 
+/-! ### the order in which `MultiPut` takes the locks of its keys (`kvs.lockOrder`)
+
+The Go function walks the pairs and inserts each key into a sorted slice at the first position
+whose entry is not smaller, unless the key is there already. -/
+
+def insertKey (k : Nat) : List Nat → List Nat
+  | [] => [k]
+  | x :: r => if x < k then x :: insertKey k r else if x = k then x :: r else k :: x :: r
+
+def lockOrder (keys : List Nat) : List Nat := keys.foldl (fun acc k => insertKey k acc) []
+
 end GoNfsd.Model.Kvs
